@@ -145,4 +145,26 @@ theorem gen_accessors (x : Nat) :
   unfold_gen Gen.ProofOpts
   simp
 
+/-- ★ `FieldExtension::degree` (regenerated: a `match` over the enum, which is its discriminant 1 / 2 / 3) is the
+    model's `Ext.degree` on every value the enum has -/
+theorem gen_degree_eq (k : Nat) (e : Ext) (h : Ext.ofNat? k = some e) :
+    Gen.ProofOpts.degree k = e.degree ∧ Gen.ProofOpts.degree_ok k = true := by
+  unfold_gen Gen.ProofOpts
+  match k, h with
+  | 1, h => cases h; exact ⟨rfl, rfl⟩
+  | 2, h => cases h; exact ⟨rfl, rfl⟩
+  | 3, h => cases h; exact ⟨rfl, rfl⟩
+
+/-- hence the estimate with the regenerated accessors composed in: for an options record stored as the bytes
+    `(q, b, g, k, …)` the regenerated `get_conjectured_security` applied to the regenerated accessor values is
+    `genConj` -/
+theorem genConj_via_accessors (o : Options) (k bits n cr : Nat) (h : Ext.ofNat? k = some o.ext) :
+    Gen.Security.get_conjectured_security (Gen.ProofOpts.blowup_factor o.blowup)
+      (Gen.ProofOpts.degree (Gen.ProofOpts.field_extension k)) (Gen.ProofOpts.grinding_factor o.grinding)
+      (Gen.ProofOpts.num_queries o.numQueries) bits n cr = genConj o bits n cr := by
+  obtain ⟨a1, a2, a3, a4⟩ := gen_accessors k
+  rw [(gen_accessors o.blowup).2.1, (gen_accessors o.grinding).2.2.1, (gen_accessors o.numQueries).1, a4,
+    (gen_degree_eq k o.ext h).1]
+  rfl
+
 end C18G
